@@ -15,7 +15,7 @@ PLAN = {
     },
     "C07": {
         "quick": [R("v0", 3), R("v1", 3), R("miri", 1, timeout=1500)],
-        "thorough": [R("v0", 8), R("v1", 8), R("tsan", 3, scale=0.1), R("asan", 2, scale=0.2), R("miri", 6, timeout=7200)],
+        "thorough": [R("v0", 6), R("v1", 4), R("tsan", 3, scale=0.1), R("asan", 2, scale=0.2), R("miri", 6, timeout=7200)],
     },
     "C02": {
         "quick": [R("v0", 4), R("miri", 2, timeout=1500)],
